@@ -40,6 +40,7 @@ pub enum G {
     Empty,
     Cust(usize, bool),
     Ext(usize, bool),
+    ExtSub(B),
     Probe(i64),
     CfgJust,
     CfgJustR,
@@ -186,6 +187,7 @@ impl G {
             "empty" => G::Empty,
             "cust" => G::Cust(us(&a[1]), a[2].as_bool().unwrap_or(false)),
             "ext" => G::Ext(us(&a[1]), a[2].as_bool().unwrap_or(false)),
+            "extsub" => G::ExtSub(bx(&a[1])?),
             "probe" => G::Probe(a[1].as_i64().unwrap_or(0)),
             "cfgjust" => G::CfgJust,
             "cfgjustr" => G::CfgJustR,
